@@ -130,6 +130,10 @@ M = [
  ('C20', 'p04-parallel-fail-fast-on-worker-exception', 'rebench/executor.py',
   "                if thread.exception is not None:\n                    exceptions.append(thread.exception)\n        except KeyboardInterrupt:",
   "                if thread.exception is not None:\n                    exceptions.append(thread.exception)\n                    break\n        except KeyboardInterrupt:"),
+ ('C20', 'e01-exec-nice-only-without-shield', 'rebench/denoise.py',
+  '    if use_nice:\n        cmdline += ["nice", "-n-20"]', '    elif use_nice:\n        cmdline += ["nice", "-n-20"]'),
+ ('C20', 'e02-exec-core-set-always', 'rebench/denoise.py',
+  '    if use_shielding and paths.has_cset():\n        min_cores', '    if True:\n        min_cores'),
  ('C20', 'n14-num-cores-minus-one', 'rebench/executor.py',
   'cmdline += "--num-cores " + str(num_cores) + " "', 'cmdline += "--num-cores " + str(num_cores - 1) + " "'),
 ]
